@@ -114,7 +114,8 @@ def run(ctx, res):
     nproc = 8
     res.rule = ('real DataProviderServer under the deterministic scheduler, writer NOT scheduled eagerly: 1..3 items with pipelined SUB/USB histories (workers reply), '
                 '0..7 adapter threads calling update / end_of_snapshot / clear_snapshot / failure with payloads 0 B .. 200 kB, events nested in subscribe(), pool 1,2,3,8, '
-                'occasional write fault on the k-th sendall; PCT and uniform random schedules; every put / get / sendall replayed through Model/Outbound.v; '
+                'occasional write fault on the k-th sendall (leaving a fragment on the wire); PCT and uniform random schedules; every put / get / sendall replayed through Model/Outbound.v; '
+                'one run in eight with line-granular preemption (every source line of the library a yield point), judged by the oracle only; the oracle also checks, per listener call, that the line enqueued carries that call\'s payload; '
                 'non-trivial = distinct runs with at least two producer threads')
     shard = max(20, n // (nproc * 2))
     jobs = []
